@@ -90,6 +90,15 @@ example : ∃ recs, Spec.At4.readAcStatus [0x40, 0x42, 0x1a, 0x00, 0xff, 0x80, 0
     [⟨0, .ON, .COOL, .LOW, false, false, 26, 1544, 0⟩] recs :=
   C05_g4_decode_agrees_2D _ 8 (by decide) _ (by rfl)
 
+/-- KNOWN FINDING `C05:sentinel:AT4_2D_TEMPERATURE_HAS_NO_ABSENT_VALUE`, as a theorem about the model of the decoder: the
+    statement "the documented not-available sentinels decode to absent values" FAILS for the AC status temperature - the vendor
+    reading of this payload has no temperature, the decoder (whose field is a plain number) returns 154.4 degC.  This is why
+    `C05_g4_decode_agrees_2D` carries the second disjunct in `AgreeAcStatus`; without it the theorem would be false. -/
+theorem C05_g4_sentinel_decodes_to_number_2D :
+    (Spec.At4.readAcStatus [0x40, 0x42, 0x1a, 0x00, 0xff, 0x80, 0, 0]).map (fun recs => recs.map (·.temperature)) = some [none] ∧
+    X2D.decode [0x40, 0x42, 0x1a, 0x00, 0xff, 0x80, 0, 0] 8 = .ok (.status [⟨0, .ON, .COOL, .LOW, false, false, 26, 1544, 0⟩], []) := by
+  constructor <;> rfl
+
 -- undefined AC mode code `0101` in the first AC
 example : ∃ e, X2D.decode (vendor2D.set 1 0x52) 16 = .error e :=
   C05_g4_undefined_rejected_2D (vendor2D.set 1 0x52) _ (by rfl) ⟨_, List.mem_cons_self .., Or.inr (Or.inl ⟨5, rfl⟩)⟩
